@@ -88,7 +88,11 @@ def menu(w, e, sa, authentic, tier, rnd):
              'child_req': [{'t': W.SA, 'proposals': [{'num': 1, 'proto': 3, 'spi': b'\x09\x09\x09\x09', 'transforms': [
                  {'type': 1, 'id': 12, 'keylen': 256}, {'type': 3, 'id': 12, 'keylen': None}, {'type': 5, 'id': 0, 'keylen': None}]}]},
                  {'t': W.NONCE, 'data': b'\x01' * 32}],
-             'notify_err': [{'t': W.NOTIFY, 'proto': 0, 'spi': b'', 'ntype': 24, 'data': b''}]}
+             'notify_err': [{'t': W.NOTIFY, 'proto': 0, 'spi': b'', 'ntype': 24, 'data': b''}],
+             # payload types the parser does not know: critical (a parse error that must not be answered), non-critical (skipped: nothing is left)
+             'unknown_critical': [{'t': 99, 'critical': True, 'data': b'\x01\x02'}],
+             'unknown_skipped': [{'t': 99, 'data': b''}, {'t': 200, 'data': b'\x00' * 8}],
+             'delete_then_critical': [{'t': W.DELETE, 'proto': 1, 'spis': []}, {'t': 47, 'critical': True, 'data': b''}]}
     for xchg, resp, flag_ok, mid, (lname, pl) in itertools.product((34, 35, 36, 37, 99), (False, True), (True, False), mids, lists.items()):
         if xchg == 34 and not resp:
             continue          # an IKE_SA_INIT request always creates a new responder IKE_SA: it is not a message for this IKE_SA
